@@ -229,7 +229,7 @@ MAX_TALLY_TRACES = 6
 
 
 def _obs_key(o):
-    return (o['kind'], o['act'].fid, o['name'], o.get('pre_class'), o.get('sid'), o.get('writer_node'), o.get('where'),
+    return (o['kind'], o['act'].fid, o['name'], o.get('pre_class'), o.get('sid'), o.get('writer_node'), o.get('where'), o.get('reader_defined_later'),
             None if o.get('view') is None or not o['view'].ok or o.get('i') is None else (o['view'].nodes[o['i']], o['view'].nodes[o['j']]))
 
 
@@ -293,7 +293,7 @@ def _work(task):
                 continue
             seen_fail.add(ok)
             f = {'args': list(args), 'decisions': list(dec), 'detail': o['detail'], 'fid': o['act'].fid, 'pre_class': o.get('pre_class'),
-                 'kind': o['kind'], 'ref': None, 'where': o.get('where'),
+                 'kind': o['kind'], 'ref': None, 'where': o.get('where'), 'reader_defined_later': o.get('reader_defined_later'),
                  'nonpath_kind': None if o.get('view') is None or not o['view'].ok else o['view'].nonpath_kind}
             v = o.get('view')
             q = None
@@ -520,6 +520,9 @@ def classify_c07(f, ans):
             cls.add('read_by_lambda_called_after_its_statement')
         elif rf.get('nonlocal'):
             cls.add('nonlocal_declared_below_reaching_closure')
+        elif rf.get('outside_unseeded') and not rf.get('reaching') and f.get('reader_defined_later'):
+            # (the run itself shows that the reader's def statement ran after the running function's own def statement)
+            cls.add('outer_function_defined_after_callers_definition')
         else:
             cls.add(None)
     if not cls or None in cls:
